@@ -79,6 +79,22 @@ def action_totals(res):
     return out
 
 
+def run_tlc(module, cfg, *, retries=2, **kw):
+    """tlc.run with a retry for a sporadic TLC-internal failure met with several workers
+    ("Field name ... occurs multiple times in record": concurrent normalisation of a shared record value)"""
+    from . import tlc
+
+    for attempt in range(retries + 1):
+        try:
+            return tlc.run(module, cfg, **kw)
+        except tlc.TLCFailure as e:
+            if "occurs multiple times in record" in str(e) and attempt < retries:
+                if attempt == retries - 1:
+                    kw["workers"] = 1
+                continue
+            raise
+
+
 def simulate_parallel(module, cfg, *, num, depth, seed, jobs=4, timeout=900):
     """tlc -simulate is single threaded: split the behaviours over `jobs` TLC processes (different seeds)"""
     from concurrent.futures import ThreadPoolExecutor
